@@ -7,26 +7,32 @@ from tools.harness.lexh import enc, dec, dec_list
 ID = 'C04'
 TARGETS = ['MindsVerif.Props.C04']
 THEOREMS = ['MindsVerif.Props.C04.' + n for n in (
-    # main theorems for the live code (codec of /repo 2843e02; identifiers; integers)
-    'C04_codec_decode', 'C04_codec_encode', 'C04_codec_roundtrip', 'C04_scan_quote', 'C04_scan_dquote',
-    'C04_identifier_partial', 'C04_identifier_mindsdb', 'C04_identifier_mysql', 'C04_identifier_sqlite',
+    # theorems about the models tied to the live code (string codec Model/Codec.lean, identifier codec Model/LexBq.lean,
+    # numbers, variables, keyword obligations on generated tables)
+    'C04_live_models', 'C04_codec_decode', 'C04_codec_encode', 'C04_codec_roundtrip', 'C04_scan_quote', 'C04_scan_dquote',
     'C04_identifier_bq_generic', 'C04_identifier_bq_mindsdb', 'C04_identifier_bq_mysql', 'C04_identifier_bq_sqlite',
-    'phi4_mindsdb', 'phi4_mysql', 'phi4_sqlite', 'phi4h_mindsdb', 'phi4h_mysql', 'phi4h_sqlite', 'C04_integer',
-    'C04_variable', 'C04_witness_variable',
-    # history / regression examples: the codec before 2843e02 (Model/Lex.lean)
-    'C04_decode_partial', 'C04_decode_dquote_partial', 'C04_decode_simple_partial', 'C04_encode_partial',
-    'C04_roundtrip_mindsdb_partial', 'C04_roundtrip_simple_partial', 'C04_witness_roundtrip',
-    'C04_witness_edge', 'C04_witness_escbs', 'C04_witness_run', 'C04_witness_simple',
-    'C04_witness_encode', 'C04_witness_ident', 'C04_witness_backquote')]
+    'phi4_mindsdb', 'phi4_mysql', 'phi4_sqlite', 'phi4h_mindsdb', 'phi4h_mysql', 'phi4h_sqlite',
+    'C04_review_integer_lex', 'C04_review_digit_not_idLetter', 'C04_integer', 'C04_variable', 'C04_witness_variable',
+    # history / regression theorems about the OLD variants (Model/Lex.lean: string codec before 2843e02, identifier codec
+    # before the doubled back-quote); no stream drives these models while codecFixed / bqDoubled are on
+    'C04_old_identifier_partial', 'C04_old_identifier_mindsdb', 'C04_old_identifier_mysql', 'C04_old_identifier_sqlite',
+    'C04_old_decode_partial', 'C04_old_decode_dquote_partial', 'C04_old_decode_simple_partial', 'C04_old_encode_partial',
+    'C04_old_roundtrip_mindsdb_partial', 'C04_old_roundtrip_simple_partial', 'C04_old_witness_roundtrip',
+    'C04_old_witness_edge', 'C04_old_witness_escbs', 'C04_old_witness_run', 'C04_old_witness_simple',
+    'C04_old_witness_encode', 'C04_old_witness_ident', 'C04_old_witness_backquote')]
 ASSUME = [
     'specification reading Denote (Model/Denote.lean): which escapes a literal has and what they denote (DESIGN.md §C04); '
     'mirrored independently in tools/harness/lexh.py and compared with the Lean text on every run',
     'Python re backtracking on the pinned regexes and the one-scan decoder / printer are hand-modelled (Model/Lex.lean matchers, '
     'Model/Codec.lean; Model/Lex.lean codec = history); tie = exhaustive short-string correspondence with the real lexer and '
     'with parse_sql in the three dialects; which model is tied is decided by the live tree (codecFixed, bqDoubled)',
-    'float() / repr() of floats are not modelled: decimals are covered by the impl-level probe only',
-    'the identifier theorem is about lexer + `id`/`identifier` grammar actions on a dotted path; the LALR context '
-    '(select list) is covered by the probe through parse_sql',
+    'float() / repr() of floats are not modelled: decimals and negative numbers are covered by the impl-level probe only '
+    '(print -> parse exact, same type); non-ASCII digits accepted by \\d / int() are probe-only',
+    'the identifier theorems are about lexer + `id`/`identifier` grammar actions + path_str_to_parts on a dotted path printed by '
+    'parts_to_str (print -> lex); the source -> parts direction and the LALR context (select list) are covered by the probes through parse_sql',
+    'variables: Variable.get_string and the VARIABLE / SYSTEM_VARIABLE rules + decoding are hand-modelled (Model/Lex.lean), tied by the '
+    'variable-print / variable-roundtrip streams (mysql, mindsdb); the quantifier domain is the names some source text denotes (VarOK)',
+    'the `C04_old_*` theorems speak about the former codecs (Model/Lex.lean) and are not tied to the live code',
 ]
 
 KIND_Q = {"'": ('scanq', 'spec1', True), '"': ('scandq', 'spec2', False)}
@@ -234,6 +240,7 @@ def keyword_words(S, d):
 
 
 def run(chk):
+    chk.kf[:] = list({k['id']: k for k in chk.kf}.values())   # a proposed (changed) entry replaces the committed one
     quick = chk.tier == 'quick'
     broken = bool(chk.broken())
     deep = not quick
@@ -322,6 +329,10 @@ def run(chk):
             raw_paths.append((d, '.'.join(segs)))
     for d, p in raw_paths:
         ask(('ident', d, p), '%s %s %s' % ('ident2' if BQ else 'ident', d, enc(p)))
+    # path_str_to_parts alone (Identifier('a.`b.c`') built by user code): model vs the real function
+    path_texts = sorted(set(p for _, p in raw_paths)) + ['a.b', '`a.b`.c', 'a..b', '.a', 'a.', '`a``b`.c', '``', '`a', 'a`b.c', '`a`b`', 'x.`y`.`z.w`', '']
+    for t in path_texts:
+        ask(('path', t), '%s - %s' % ('path2' if BQ else 'path', enc(t)))
     # numbers
     num_texts = ['0', '7', '007', '10', '1.5', '1.50', '00.10', '1.', '12a', '1e5', '1.5e3', '123456789012345678901234567890',
                  '3.14159', '1..2', '1.a'] + [str(rngi.randrange(10 ** rngi.randint(1, 25))) for _ in range(100)] + \
@@ -352,7 +363,7 @@ def run(chk):
 
     # ---------------------------------------------------------------- compare with the real code
     corr = {k: [0, 0, None] for k in ('scan', 'spec', 'decode', 'encode', 'ident-print', 'ident-lex', 'number', 'variable',
-                                         'variable-print', 'variable-roundtrip')}
+                                         'variable-print', 'variable-roundtrip', 'path-parts')}
 
     def diverge(name, info):
         c = corr[name]
@@ -473,6 +484,12 @@ def run(chk):
                     impl = ('FLOAT', tok[1], text[tok[2]:])
                 if model != impl:
                     diverge('number', dict(dialect=d, text=text, model=o, impl=impl))
+            elif kind == 'path':
+                from mindsdb_sql.parser.ast.select.identifier import path_str_to_parts
+                corr['path-parts'][0] += 1
+                real = path_str_to_parts(meta[1])
+                if dec_list(o) != real:
+                    diverge('path-parts', dict(text=meta[1], model=o, impl=real))
             elif kind == 'varstr':
                 from mindsdb_sql.parser.ast import Variable
                 _, nm, sysv = meta
@@ -587,12 +604,13 @@ def run(chk):
         if f and kf_match(k, f):
             k['_reproduced'] = True
 
-    chk.samples.append(dict(theorem='C04_decode_partial: ∀ items rest, items well-formed → no `\\\\` item → value does not start/end with a quote → '
-                                    'no escaped quote directly before another quote item → rest does not start with a quote → '
-                                    'readString .mindsdb (srcLit items ++ rest) = some (denote items, rest)'))
+    chk.samples.append(dict(theorem='C04_codec_roundtrip: ∀ v rest, rest.head? ≠ some \'\\\'\' → '
+                                    'Codec.readString (Codec.constantToString v ++ rest) = some (v, rest)'))
+    chk.samples.append(dict(theorem='C04_identifier_bq_mindsdb: ∀ parts ≠ [], (∀ p ∈ parts, p ≠ []) → '
+                                    'LexBq.lexIdentPath K_mindsdb (LexBq.partsToStr reservedL parts) = some parts'))
     for meta, o in list(zip(metas, outs or []))[:2]:
         chk.samples.append(dict(case=str(meta)[:200], model=o[:200]))
-    chk.samples.append(dict(codec_model='Model/Codec.lean (C04_2 live)' if FIXED else 'Model/Lex.lean (pinned codec)'))
+    chk.samples.append(dict(codec_model='Model/Codec.lean' if FIXED else 'Model/Lex.lean (old codec)', ident_model='Model/LexBq.lean' if BQ else 'Model/Lex.lean (old identifier codec)'))
     return chk.finish(assumptions=ASSUME, extra=dict(impl_probe=dict((k, v) for k, v in dist.items() if k.startswith('P'))))
 
 
